@@ -54,6 +54,7 @@ void CDNS::CdnsReader::read_file_header()
 
     if (length != 3 && !indef)
         throw CdnsDecoderException("Invalid structure of C-DNS file");
+    m_indef_file = indef;
 
     // Read File type ID -> "C-DNS" string
     std::string file_start = m_decoder.read_textstring();
@@ -75,12 +76,17 @@ CDNS::CdnsBlockRead CDNS::CdnsReader::read_block(bool& eof)
 
     if (m_indef_blocks && m_decoder.peek_type() == CborType::BREAK) {
         m_decoder.read_break();
-        eof = true;
         m_indef_blocks = false;
         m_blocks_count = m_blocks_read;
-        return block;
     }
-    else if (!m_indef_blocks && m_blocks_read == m_blocks_count) {
+
+    if (!m_indef_blocks && m_blocks_read == m_blocks_count) {
+        // An indefinite length C-DNS file array is complete only with its own closing break
+        if (m_indef_file) {
+            m_decoder.read_break();
+            m_indef_file = false;
+        }
+
         eof = true;
         return block;
     }
